@@ -2,7 +2,7 @@ CFG = {
     "id": "C13",
     "lean_theorems": "LeptosModel.Theorems.C13",
     "lean_exe": "lm_c13",
-    "extract": ["ErrorKinds"],
+    "extract": ["ErrorKinds", "ServerFnPath"],
     "theorems": [
         # error wire format (tables extracted from server_fn/src/error.rs)
         "Leptos.ServerFn.C13_error_roundtrip",
@@ -54,6 +54,24 @@ CFG = {
         "Leptos.ServerFn.C13_bytes_out_roundtrip",
         "Leptos.ServerFn.C13_bytes_out_error_value",
         "Leptos.ServerFn.de_wellFormed",
+        # the registered path (table extracted from server_fn_macro::server_fn_url)
+        "Leptos.ServerFn.C13_path_with_endpoint",
+        "Leptos.ServerFn.C13_path_without_endpoint",
+        "Leptos.ServerFn.C13_path_endpoint_slashes",
+        "Leptos.ServerFn.C13_path_names_distinct",
+        # the non-JS <form> fallback (form-redirects)
+        "Leptos.ServerFn.to_url_bytes_roundtrip",
+        "Leptos.ServerFn.C13_form_fallback_error_partial",
+        "Leptos.ServerFn.C13_form_no_referer_witness",
+        "Leptos.ServerFn.C13_form_fallback_error_full_false",
+        "Leptos.ServerFn.C13_form_fallback_ok",
+        "Leptos.ServerFn.C13_form_fallback_outcome",
+        "Leptos.ServerFn.runServerFull_fst",
+        "Leptos.ServerFn.runServerFull_snd",
+        # middleware, functions without arguments
+        "Leptos.ServerFn.C13_middleware_identity",
+        "Leptos.ServerFn.C13_middleware_block",
+        "Leptos.ServerFn.C13_noargs",
         # regression witnesses for the repaired F-C13-2 (old per-chunk decoder)
         "Leptos.ServerFn.C13_text_stream_witness",
         "Leptos.ServerFn.C13_text_stream_old_false",
@@ -70,7 +88,12 @@ CFG = {
             "type, streaming text/bytes as input, and as OUTPUT with Err items at every position of the item sequence: first, middle, "
             "last, several, only errors) called through a loop-back Client -> generic http::Request<Bytes> -> run_on_server; "
             "observable = canonicalised Ok/Err, oracle = equals the direct call; canned responses for the status rule, hand-built "
-            "requests for the server half. (c) TESTING (not proof): truncated / bit-flipped / extended request and response bodies "
+            "requests for the server half; the #[server] macro's options as they reach the wire (endpoint, prefix, name / automatic name, "
+            "default path with hash, input x output for all 66 + 10 codec pairs that build offline, #[server(default)] and "
+            "#[server(rename)] arguments, no arguments, ten arguments, a hand-written generic ServerFn impl), the registered path of "
+            "every function against the derivation extracted from server_fn_macro, the non-JS <form> fallback (Accept: text/html + "
+            "Referer with/without query, fragment, stale error pairs, or absent) for every error variant x three error encodings "
+            "(ServerFnErrorEncoding, JSON, binary CBOR), #[middleware] layers (pass-through; a layer that answers itself). (c) TESTING (not proof): truncated / bit-flipped / extended request and response bodies "
             "under catch_unwind for every codec, oracle = an Ok or an Err of the declared type, never a panic. "
             "distinct = distinct op line; every op carries at least one generated string or byte string (non-trivial)",
     "trusted": [
@@ -83,7 +106,8 @@ CFG = {
         "core::str UTF-8 validation and <str as Debug> (modelled; the printable/grapheme-extend tables of core::unicode are "
         "approximated for scalars >= U+0080, generators put only checked scalars into {:?} positions)",
         "http crate (Request/Response/Uri) and the harness' loop-back Client/transport (LoopReq mirrors request/reqwest.rs)",
-        "extract.py (regex extraction of the encode/decode arms of ServerFnErrorEncoding)",
+        "extract.py (regex extraction of the encode/decode arms of ServerFnErrorEncoding and of the concatcp! arguments of server_fn_url)",
+        "xxhash-rust (the hash suffix of a default path is recomputed by the harness with the same crate and compared, not modelled)",
     ],
     "modelled": [
         "ServerFnErrorEncoding::{encode, decode}", "FromServerFnError::{ser, de}", "ServerFnError::from_server_fn_error",
@@ -92,6 +116,8 @@ CFG = {
         "IntoReq/FromReq of GetUrl, PostUrl, DeleteUrl, PatchUrl, PutUrl, Post<C>, Patch<C>, Put<C>",
         "IntoRes/FromRes of StreamingText (TextStream) and Streaming (ByteStream), TryRes::try_from_stream (generic): every item relayed, "
         "an Err item as ser() bytes, decoded with E::de",
+        "ServerFnCall::server_fn_url (server_fn_macro: ServerFn::PATH)", "ServerFn::run_on_server with form-redirects (Accept: text/html)",
+        "Res::redirect (generic)", "middleware::{Layer, Service, BoxedService} composition as in get_server_fn_service",
         "decode_text_chunks (FromReq/FromRes of StreamingText: incomplete UTF-8 tail carried to the next chunk)",
     ],
     "assumptions": [
